@@ -58,6 +58,9 @@ def gen_scenario(rng: random.Random) -> Dict[str, Any]:
     # unrelated traffic heard while probing: other instances of the same type, other types, address records (new cache
     # entries wake the probing coroutine early; none of them conflicts with the proposed name)
     sc["noise"] = sorted(float(rng.choice([5, 30, 60, 100, 120, 170, 180, 200, 300, 340, 360])) for _ in range(rng.choice([0, 0, 1, 2, 3])))
+    # queries of other hosts that arrive while the announcements are going out (two questions: the reply is assembled from the
+    # SRV answer's additional set and the address answer)
+    sc["ann_queries"] = sorted(float(rng.choice([360, 400, 450, 520, 560, 600, 640, 700, 790])) for _ in range(rng.choice([0, 0, 1, 2])))
     if variant == "inject":
         if rng.random() < 0.7:
             sc["delta"] = float(rng.randrange(-10, 81) * 5)
@@ -141,6 +144,9 @@ def run_scenario(res: Result, seed: int) -> None:
                     sim.net.inject_now(host, data, ("10.0.0.9", 5353))   # just before registering (|delta| irrelevant once cached)
                 else:
                     sim.net.inject(host, data, ("10.0.0.9", 5353), delay_ms=delta)
+            for k, qoff in enumerate(sc.get("ann_queries", [])):
+                qd = R.build_query([(s.name, 33, False), (s.server, 1 if s.addrs4 else 28, False)], id_=0)
+                sim.net.inject(host, qd, ("10.0.0.5%d" % k, 5353), delay_ms=qoff)
             for k, noff in enumerate(sc["noise"]):
                 other = "neighbour%d-%d.%s" % (k, rng.randrange(1000), s.type if k % 2 == 0 else "_other._tcp.local.")
                 ndata = R.build_response([(("PTR", other.split(".", 1)[1], (other,)), 4500, False), (("A", "nb%d.local." % k, (bytes([10, 9, 9, k + 1]),)), 120, True)], id_=300 + k)
